@@ -211,6 +211,8 @@ pub fn worker_main(args: &[String]) -> i32 {
         if o.nontrivial {
             rep.nontrivial += 1;
             distinct.insert(detsim::mix(o.shape, td));
+        }
+        if o.nontrivial || !o.extra_distinct.is_empty() {
             if rep.samples.len() < 2 && o.fail.is_none() {
                 let mut c = serde_json::to_value(&case).unwrap();
                 c["tape_len"] = json!(o.tape.len());
